@@ -129,7 +129,7 @@ PROPS = {
                                      "two constructs are excluded from generation because they are listed known findings (see known_findings.json): a read that is "
                                      "evaluated both before and after eval() introduced a local of that name in the same or an inner scope",
                                      "generated blocks start with a static declaration (a block without one is made scope-less by the optimizer: property C02's subject)"],
-        expected_probes=["probe_body_evaluated_under_different_layouts", "fault_throw_in_priming_or_later_evaluation", "probe_name_read_after_it_became_a_global"],
+        expected_probes=["probe_body_evaluated_under_different_layouts", "fault_throw_in_priming_or_later_evaluation", "probe_name_read_after_it_became_a_global", "probe_function_table_reordered"],
         **two(40, 420,
               {"asan": {"workers": 8}, "plain": {"workers": 4}, "tsan": {"workers": 4}},
               {"asan": {"workers": 8}, "plain": {"workers": 4}, "tsan": {"workers": 4}}),
